@@ -29,6 +29,7 @@ RULE = (
     "item; slices, non-subset Dimensions, unknown dimension keys (must raise); items_where for every single "
     "entry and every pair; split along every dimension. Non-trivial = at least one selector present on an array "
     "with a dimension of >= 2 items. Cases are distinct by construction."
+    " Also: the selector grid over labels that collide with letters, names and each other (ambiguous bare items must be refused), reverse-order dict keys, iterator item lists, typed look-alike keys, zero-valued items_where, Dimensions derived by model_copy from used ones."
 )
 ASSUMPTIONS = [
     "values are positional codes (distinct per entry); written values carry the region position, so a misplaced or "
